@@ -69,7 +69,7 @@ def gen_config(rng, long_adapters=False, allow_force_anywhere=True):
         type=t,
         seq=seq,
         max_errors=rate,
-        min_overlap=rng.randint(1, m),
+        min_overlap=rng.randint(1, m) if rng.random() < 0.93 else m + rng.randint(1, 6),   # above the length: documented to be reduced to it
         aw=rng.random() < 0.8,
         rw=rng.random() < 0.25,
         indels=rng.random() < 0.6,
@@ -225,7 +225,8 @@ def admissible_occurrence(cfg, ad, read):
     eq = R.make_eq(ad.adapter_wildcards, ad.read_wildcards)
     t = cfg["type"]
     fa = cfg.get("fa", False)
-    mo = ad.min_overlap
+    # documented rule, not the object's attribute: anchored = full length; a larger value is reduced to the length
+    mo = len(aseq) if t in ("prefix", "suffix") else min(cfg["min_overlap"], len(aseq))
     if not ad.indels:
         occ = next(R.admissible_ungapped(t, aseq, read, ad.max_error_rate, mo, eq, ad.adapter_wildcards, fa), None)
         return ("ungapped", occ) if occ else None
